@@ -74,8 +74,16 @@ pub fn check(rep: &mut CaseReport, m: &SenderModel, events: &[Event]) {
                     );
                 }
                 Some(w) => {
-                    if !s.in_loss_episode {
+                    // outside loss recovery: no duplicate / selective ACK since everything sent before
+                    // the last one was covered - or, where the sender's own phase was recorded, the
+                    // sender itself is not recovering (a selective ACK below the threshold, or one
+                    // that arrives after recovery ended, puts nobody into recovery)
+                    let idle = s.sender_phase == Some("counting-duplicates");
+                    if !s.in_loss_episode || idle {
                         rep.counters.inc("c05_window_bound_checked");
+                        if s.in_loss_episode {
+                            rep.counters.inc("c05_window_bound_checked_with_sacks_around_but_sender_not_recovering");
+                        }
                         if s.outstanding_after > w as u64 {
                             let spontaneous = s.spontaneous;
                             rep.violate(
